@@ -2,6 +2,7 @@
 CONSTANTS
   Alphabet <- Alpha11
   MaxLen = 6
+  CC = "#"
   Dump = TRUE
 INIT Init
 NEXT Next
